@@ -22,8 +22,8 @@ from .core import UNKNOWN, AnalysisError, ClassInfo, FuncInfo, Repo, body_no_doc
 from .registry import _propdef_items
 
 FRESH: frozenset = frozenset()
-LXML, ELEM, LIST, PART, CONT, DOC, PY, UNK, XP, ATTRIB = "LXML", "ELEM", "LIST", "PART", "CONT", "DOC", "PY", "UNK", "XPATH", "ATTRIB"
-TREEISH = {LXML, ELEM, LIST, PART, CONT, DOC, ATTRIB}
+LXML, ELEM, LIST, PART, CONT, DOC, PY, UNK, XP, ATTRIB, PLIST = "LXML", "ELEM", "LIST", "PART", "CONT", "DOC", "PY", "UNK", "XPATH", "ATTRIB", "PLIST"
+TREEISH = {LXML, ELEM, LIST, PART, CONT, DOC, ATTRIB, PLIST}
 
 LXML_MUT_CALLS = {"append", "insert", "remove", "replace", "extend", "clear", "addnext", "addprevious", "set"}
 LXML_MUT_ATTRS = {"text", "tail", "tag"}
@@ -490,6 +490,9 @@ class _FuncAnalysis:
         if isinstance(target, ast.Name):
             self.env[target.id] = v
             self.cenv.pop(target.id, None)
+        elif isinstance(target, (ast.Tuple, ast.List)) and v.kind == PART:
+            for e in target.elts:
+                self.bind(e, v)
         elif isinstance(target, (ast.Tuple, ast.List)):
             for e in target.elts:
                 self.bind(e, Val(UNK if v.kind not in (LIST, LXML) else (ELEM if v.kind == LIST else LXML), v.roots) if v.kind in TREEISH | {UNK} else PYV)
@@ -497,6 +500,8 @@ class _FuncAnalysis:
             self.bind(target.value, v)
 
     def elem_of(self, it: Val, iter_expr=None) -> Val:
+        if it.kind == PLIST:
+            return Val(PART, it.roots)
         if it.kind == LIST:
             return Val(ELEM, it.roots)
         if it.kind == LXML:
@@ -657,6 +662,8 @@ class _FuncAnalysis:
             base = self.ev(e.value)
             if not isinstance(e.slice, ast.Slice):
                 self.ev(e.slice)
+            if base.kind == PLIST:
+                return Val(PART, base.roots)
             if base.kind == LIST:
                 return Val(LIST if isinstance(e.slice, ast.Slice) else ELEM, base.roots)
             if base.kind == LXML:
@@ -761,7 +768,7 @@ class _FuncAnalysis:
             if mang.endswith("__parts"):
                 return Val(PY, base.roots)  # the part table: dict; writes are caught at the subscript store
             if mang in ("_Document__xmlparts",):
-                return Val(PY, FRESH)
+                return Val(PLIST, base.roots)  # the cache of parsed parts: parts of this document
             if mang in ("_XmlPart__root", "_Document__body"):
                 return Val(ELEM, base.roots)
             if mang in ("_XmlPart__tree",):
@@ -923,6 +930,12 @@ class _FuncAnalysis:
         if recv.kind == ATTRIB:
             if m in ("pop", "clear", "update", "setdefault"):
                 self.mutate(recv, c, f"attrib.{m}(…)")
+            return PYV
+        if recv.kind == PLIST:
+            if m in ("items", "values"):
+                return recv
+            if m in ("get", "pop", "setdefault"):
+                return Val(PART, recv.roots)
             return PYV
         if recv.kind == PY:
             if m in ("append", "extend", "insert", "add") and isinstance(fn.value, ast.Name) and args and args[-1].roots \
